@@ -190,7 +190,8 @@ Fixpoint mon_steps (w : world) (nw : Z) (seen : list (string * Z)) (steps : list
       end
   end.
 
-(* tags that are recorded as known findings; any other tag wins *)
+(* the tags of the two defects repaired by commit 3e32ae1 of the library (kept so that they are
+   re-detected by name); when several tags are raised any other tag is reported first *)
 Definition known_tags : list string := ["ca:exp_zero_accepted"; "ca:replay_in_final_second"].
 Definition pick (tags : list string) : option string :=
   match filter (fun t => negb (mem t known_tags)) tags with
